@@ -901,6 +901,15 @@ def nonsqlite_plans(ctx, names, cases, impl_out, reqs):
             got = [tuple(s) if isinstance(s, tuple) else (s,) for b in batches for s in b.sentinel_values]
             if got != want:
                 ctx.violation("c12-plan-sentinel-values:" + dname, case, "sentinel_values %s for parameter sentinels %s" % (got, want))
+        # INSERT..SELECT..VALUES form: each VALUES group carries its position as sen_counter
+        if imv.embed_values_counter:
+            for b in batches:
+                seg = _values_segment_generic(b.replaced_statement)
+                counters = [int(x) for x in re.findall(r", (\d+)\)", seg)]
+                if "_IMV_VALUES_COUNTER" in b.replaced_statement or counters != list(range(len(b.batch))):
+                    ctx.violation("c12-plan-values-counter:" + dname, case, "counters %s for a batch of %d in %s" % (counters, len(b.batch), b.replaced_statement[:300]))
+                if "ORDER BY sen_counter" not in b.replaced_statement:
+                    ctx.violation("c12-plan-values-counter-order:" + dname, case, b.replaced_statement[:300])
         enc = Canon()
         canon = lambda v: enc((type(v).__name__, repr(v)))  # noqa: E731
         row_mode = _is_row_mode(batches, n, bits)
